@@ -22,7 +22,7 @@ func init() {
 			"plugin.ValidateRequirements(elem, capabs) == nil on the same element and capabilities, FromCapabilities instantiates every row of All, ValidatePluginRequirements applies the same validator to all three plugin kinds; " +
 			"D4 every name in a detector's RequiredExtractors() literal resolves to a registered extractor whose Requirements() literal is implied by the detector's (so auto-enabling cannot make validation fail); " +
 			"D5 ValidateRequirements consults all four Capabilities fields of both operands; D6 EnableRequiredExtractors fails only when both registries reject the name and appends only successfully resolved extractors. " +
-			"Added in round 2: D3 additionally the converse (no other decision drops an element, no return before the loop); D6 additionally: the set of enabled names is updated with the very name looked up. NOT decided: the truth table of ValidateRequirements itself (value-level; the lattice used for D4 is a trusted model of it), docs/supported_inventory_types.md.",
+			"Added in round 2: D3 additionally the converse (no other decision drops an element, no return before the loop); D6 additionally: the set of enabled names is updated with the very name looked up. Added in round 3: D5-decision-table: ValidateRequirements, as a boolean function of its tests, equals the documented requirement semantics (this checks the model D4 relies on); the filter's result is a fresh slice; every name resolution reads the names table. NOT decided: the truth table of ValidateRequirements itself (value-level; the lattice used for D4 is a trusted model of it), docs/supported_inventory_types.md.",
 		Assume: []string{
 			"symbolic reading of concat (maps.Copy union, later wins) and vals (concatenation of values); both helper bodies are checked to have that shape",
 			"Requirements()/RequiredExtractors()/Name() bodies are literal; non-literal bodies make the row undecided (reported as failure)",
